@@ -20,9 +20,9 @@ MUTATORS = {"append", "add", "update", "pop", "remove", "clear", "sort", "extend
             "discard", "popitem", "reverse", "__setitem__", "__delitem__", "difference_update",
             "intersection_update", "symmetric_difference_update"}
 CACHE_WRITERS = {"compile", "get_compiled_pattern"}
-CACHE_FIELD = "_Pregex__compiled"
+CACHE_FIELD = ["_Pregex__compiled"]      # replaced at run time by absdom.cache_field(model) (located by role)
 FRESH_CALLS = {"list", "set", "dict", "tuple", "sorted", "frozenset"}
-HIDDEN_CALLS = {"hash", "id", "input", "getattr", "setattr", "delattr", "vars", "globals", "locals", "exec", "eval", "__import__"}
+HIDDEN_CALLS = {"hash", "id", "input", "setattr", "delattr", "vars", "globals", "locals", "exec", "eval", "__import__"}   # getattr is an attribute read
 HIDDEN_MODULES = {"os", "sys", "time", "random", "datetime", "uuid", "secrets", "threading", "functools", "weakref"}
 
 
@@ -57,7 +57,7 @@ def scan_writes(tree, modname, relpath, parents):
                 reason = "attribute store inside a nested function / lambda"
             elif fnode.name == "__init__":
                 ok = True
-            elif cl == "Pregex" and fnode.name in CACHE_WRITERS and mangle(tgt.attr, cl) == CACHE_FIELD:
+            elif cl == "Pregex" and fnode.name in CACHE_WRITERS and mangle(tgt.attr, cl) == CACHE_FIELD[0]:
                 ok, reason = True, "compiled cache (C11 R-CACHE)"
             else:
                 reason = f"field `{tgt.attr}` written in `{fnode.name}` after construction"
@@ -236,6 +236,36 @@ def is_fresh(expr):
     return False
 
 
+def _local_fresh(g: FuncInfo, arg):
+    """`arg` is a local variable of the calling function (not one of its parameters) every binding of which is a
+    freshly built container: the callee then mutates the caller's own scratch object, not shared or argument state."""
+    if not isinstance(arg, ast.Name):
+        return False
+    a = g.node.args
+    if arg.id in [p.arg for p in a.posonlyargs + a.args + a.kwonlyargs] or (a.vararg and a.vararg.arg == arg.id) \
+            or (a.kwarg and a.kwarg.arg == arg.id):
+        return False
+    values = []
+    for n in ast.walk(g.node):
+        if isinstance(n, ast.Assign):
+            for t in n.targets:
+                if isinstance(t, ast.Name) and t.id == arg.id:
+                    values.append(n.value)
+                elif any(isinstance(x, ast.Name) and x.id == arg.id and isinstance(x.ctx, ast.Store) for x in ast.walk(t)):
+                    return False
+        elif isinstance(n, ast.AnnAssign) and isinstance(n.target, ast.Name) and n.target.id == arg.id:
+            if n.value is None:
+                return False
+            values.append(n.value)
+        elif isinstance(n, (ast.For, ast.comprehension, ast.With, ast.NamedExpr, ast.AugAssign)):
+            tgt = getattr(n, "target", None)
+            if tgt is not None and any(isinstance(x, ast.Name) and x.id == arg.id for x in ast.walk(tgt)):
+                return False
+        elif isinstance(n, (ast.Global, ast.Nonlocal)) and arg.id in n.names:
+            return False
+    return bool(values) and all(is_fresh(v) for v in values)
+
+
 # ---------------------------------------------------------------------------
 # R-SETORDER
 class SetFlow:
@@ -393,6 +423,12 @@ def order_sinks(model: Model, sf: SetFlow):
                 it, kind = n.value, "unpack"
             if it is None:
                 continue
+            if kind in ("enumerate", "zip", "iter", "reversed"):
+                par = model.parents.get(n)
+                if isinstance(par, ast.For) and par.iter is n:
+                    n, kind = par, "for"          # `for i, x in enumerate(S)` is a loop over S
+                elif isinstance(par, ast.comprehension) and par.iter is n:
+                    n, kind = par, "comprehension"
             cls, reason = classify_sink(model, sf, f, n, kind)
             out.append((f, n, kind, cls, reason))
     return out
@@ -456,6 +492,26 @@ def classify_sink(model, sf: SetFlow, f: FuncInfo, n, kind):
             consts = [v.value for v in js.values if isinstance(v, ast.Constant)]
             if consts and consts[0].startswith("[") and consts[-1].endswith("]"):
                 return "ok", "member list of a character class [...]: re ignores member order"
+        # the same template spelled as a concatenation: "[" + ... + "".join(S) + "]"  (first operand may be a
+        # conditional expression between "[" and "[^")
+        top = n
+        while isinstance(parents.get(top), ast.BinOp) and isinstance(parents.get(top).op, ast.Add):
+            top = parents.get(top)
+        if top is not n:
+            ops = []
+
+            def flat(x):
+                if isinstance(x, ast.BinOp) and isinstance(x.op, ast.Add):
+                    flat(x.left)
+                    flat(x.right)
+                else:
+                    ops.append(x)
+            flat(top)
+            opens = lambda x: (isinstance(x, ast.Constant) and isinstance(x.value, str) and x.value.startswith("[")) or \
+                (isinstance(x, ast.IfExp) and opens(x.body) and opens(x.orelse))
+            closes = lambda x: isinstance(x, ast.Constant) and isinstance(x.value, str) and x.value.endswith("]")
+            if ops and opens(ops[0]) and closes(ops[-1]):
+                return "ok", "member list of a character class '[' + ... + ']': re ignores member order"
         return "bad", "join of a set outside a character-class template"
     if kind in ("list", "tuple"):
         if _worklist_to_set(model, sf, f) or _local_worklist(model, f, n):
@@ -546,6 +602,8 @@ class P:
 
 
 def run(ctx, model: Model):
+    from ..absdom import cache_field
+    CACHE_FIELD[0] = cache_field(model)
     ctx.explanation = (
         "Whole-package ownership/effect analysis on the syntax trees: (R-WRITEONCE) every attribute store, "
         "setattr/__dict__ access is enumerated and must be `self.<field> = ...` directly inside an __init__ (the "
@@ -592,7 +650,7 @@ def run(ctx, model: Model):
             if not ok:
                 ctx.violation("R-WRITEONCE", m.relpath, fn, norm_text(_stmt(node, model.parents)),
                               f"object state is written after construction or on another object: {reason}", node.lineno)
-    ctx.floor("R-WRITEONCE", n_stores, 11, "attribute stores")
+    ctx.floor("R-WRITEONCE", n_stores, 5, "attribute stores")
 
     # --------------------------------------------------- R-NOSHARED
     n_tables = 0
@@ -603,7 +661,7 @@ def run(ctx, model: Model):
             ctx.violation("R-NOSHARED", m.relpath, _fn(node, model.parents), norm_text(_stmt(node, model.parents)),
                           f"shared or instance state is mutated: {reason}", node.lineno)
     ctx.instance("R-NOSHARED", key="tables", sample=f"{n_tables} class-level/module-level names guarded", n=max(n_tables, 1))
-    ctx.floor("R-NOSHARED", n_tables, 6, "class-level / module-level tables")
+    ctx.floor("R-NOSHARED", n_tables, 3, "class-level / module-level tables")
 
     # --------------------------------------------------- R-NOARGMUT
     funcs = list(model.all_functions())
@@ -630,14 +688,14 @@ def run(ctx, model: Model):
             for g, call in sites:
                 arg = call.args[idx] if idx is not None and idx < len(call.args) else \
                     next((k.value for k in call.keywords if k.arg == p), None)
-                if arg is None or not is_fresh(arg):
+                if arg is None or not (is_fresh(arg) or _local_fresh(g, arg)):
                     bad_sites.append((g, call))
             if public or not sites or bad_sites:
                 why = "a public function" if public else ("no call site found" if not sites else
                       f"call site {bad_sites[0][0].short}:{bad_sites[0][1].lineno} passes a non-fresh object")
                 ctx.violation("R-NOARGMUT", f.relpath, f.short, f"parameter {p}: {norm_text(_stmt(nodes[0], model.parents))}",
                               f"parameter `{p}` is mutated in place and {why}", nodes[0].lineno)
-    ctx.floor("R-NOARGMUT", len(funcs), 150, "functions scanned")
+    ctx.floor("R-NOARGMUT", len(funcs), 100, "functions scanned")
 
     # --------------------------------------------------- R-SETORDER
     sf = SetFlow(model)
@@ -650,7 +708,7 @@ def run(ctx, model: Model):
         if cls != "ok":
             ctx.violation("R-SETORDER", f.relpath, f.short, f"{kind}: {norm_text(n)[:90]}",
                           f"the iteration order of a set (hash-seed dependent) is observed: {reason}", n.lineno)
-    ctx.floor("R-SETORDER", len(sinks), 8, "order-observing uses of set-typed values")
+    ctx.floor("R-SETORDER", len(sinks), 3, "order-observing uses of set-typed values")
 
     # --------------------------------------------------- R-NOHIDDEN
     n_h = 0
@@ -677,17 +735,38 @@ def run(ctx, model: Model):
     ctx.exhaustive = True
 
 
+PURE_FUNCTOOLS = {"reduce", "partial", "wraps", "cmp_to_key", "total_ordering"}     # no cache, no hidden state
+
+
 def scan_hidden(tree):
     out = []
+    functools_aliases = set()
     for n in ast.walk(tree):
         if isinstance(n, ast.Call) and isinstance(n.func, ast.Name) and n.func.id in HIDDEN_CALLS:
             out.append((n, f"call of {n.func.id}()"))
         if isinstance(n, ast.Import):
             for a in n.names:
-                if a.name.split(".")[0] in HIDDEN_MODULES:
+                if a.name == "functools":
+                    functools_aliases.add(a.asname or a.name)      # judged by what is used from it, below
+                elif a.name.split(".")[0] in HIDDEN_MODULES:
                     out.append((n, f"import of {a.name}"))
         if isinstance(n, ast.ImportFrom) and n.module and n.module.split(".")[0] in HIDDEN_MODULES:
+            if n.module == "functools" and all(a.name in PURE_FUNCTOOLS for a in n.names):
+                continue
             out.append((n, f"import from {n.module}"))
+    for n in ast.walk(tree):
+        if isinstance(n, ast.Attribute) and isinstance(n.value, ast.Name) and n.value.id in functools_aliases \
+                and n.attr not in PURE_FUNCTOOLS:
+            out.append((n, f"use of functools.{n.attr} (caches / hidden state)"))
+        elif isinstance(n, ast.Name) and n.id in functools_aliases and not isinstance(n.ctx, ast.Store):
+            par = None     # a bare use of the module object (passed around): cannot be judged
+            out_of_attr = True
+            for m in ast.walk(tree):
+                if isinstance(m, ast.Attribute) and m.value is n:
+                    out_of_attr = False
+                    break
+            if out_of_attr:
+                out.append((n, "the functools module object is passed around"))
     return out
 
 
